@@ -629,3 +629,54 @@ _run_c08e = run
 def run(ctx):  # noqa: F811
     _run_c08e(ctx)
     r08_11(ctx, ctx.model)
+
+
+def r08_13(ctx, m, rid13="R08.13", rid14="R08.14"):
+    from ..terms import inline_at
+    P = m.cls(*PS)
+    pi = P.methods["__init__"]
+    ctx.saw_func(pi)
+    ctx.rule(rid13, "PowerSpace: the population that becomes the bin volume (rho * pixel volume) and divides the summed k-lengths is, on "
+                       "every path, the bincount of the very index map that is stored as pindex - a closed form (2l+1) or any other "
+                       "source disagrees with the index map as soon as modes are missing (mmax < lmax)", floor=2)
+    cfg = cfg_of(pi)
+    rd = cfg.reaching_defs(pi.params())
+    # the stored index map: second element of the cached tuple
+    stores = [x for x in cfg.nodes if x.kind == "stmt" and isinstance(x.ast, ast.Assign) and isinstance(x.ast.targets[0], ast.Subscript)
+              and "_powerIndexCache" in src(x.ast.targets[0]) and isinstance(x.ast.value, ast.Tuple) and len(x.ast.value.elts) == 4]
+    if len(stores) != 1:
+        ctx.und(rid13, f"{pi.key}::population = bincount(pindex)", f"{len(stores)} cache stores", pi)
+    else:
+        pidx = src(stores[0].ast.value.elts[1])
+        users = [n for n in cfg.nodes if n.kind == "stmt" and isinstance(n.ast, ast.Assign) and isinstance(n.ast.value, ast.BinOp)
+                 and any(isinstance(x, ast.Name) and "rho" in x.id for x in ast.walk(n.ast.value))]
+        for n in users:
+            rn = [x.id for x in ast.walk(n.ast.value) if isinstance(x, ast.Name) and "rho" in x.id][0]
+            defs = [cfg.nodes[d] for d in (rd.get(n.id) or {}).get(rn, ())]
+            okd = bool(defs) and all(d.kind == "stmt" and isinstance(d.ast, ast.Assign) and isinstance(d.ast.value, ast.Call) and call_name(d.ast.value) == "bincount"
+                                     and src(d.ast.value.args[0]).replace(" ", "") in (f"{pidx}.ravel()", f"{pidx}.reshape(-1)", f"{pidx}.flatten()") for d in defs)
+            ctx.check(rid13, f"{pi.key}::`{short(n.ast, 50)}` uses the counted population", okd,
+                      f"`{rn}` defined by {[src(d.ast)[:70] for d in defs if d.ast is not None]}", pi, n.ast)
+    R = m.cls("nifty.cl.domains.rg_space", "RGSpace")
+    uk = R.methods["get_unique_k_lengths"]
+    ctx.rule(rid14, "RGSpace.get_unique_k_lengths (isotropic shortcut): inside the loop over the further axes the per-axis extent is "
+                       "indexed by the loop variable (maxdist[i]); a constant index builds the table of squared lengths from the "
+                       "wrong axis for non-cubic grids", floor=1)
+    n_ = 0
+    for lp in ast.walk(uk.node):
+        if isinstance(lp, ast.For) and isinstance(lp.target, ast.Name) and isinstance(lp.iter, ast.Call) and src(lp.iter.func) == "range" and "dimensions" in src(lp.iter):
+            subs = [x for b in lp.body for x in ast.walk(b) if isinstance(x, ast.Subscript) and isinstance(x.value, ast.Name) and x.value.id == "maxdist"]
+            for x in subs:
+                n_ += 1
+                ctx.check(rid14, f"{uk.key}::`{src(x)}` inside `for {lp.target.id} in {src(lp.iter)}`", src(x.slice) == lp.target.id,
+                          f"constant index `{src(x.slice)}` in a loop over the axes", uk, x)
+    if not n_:
+        ctx.und(rid14, f"{uk.key}::axis loop", "no per-axis subscript found", uk)
+
+
+_run_c08f = run
+
+
+def run(ctx):  # noqa: F811
+    _run_c08f(ctx)
+    r08_13(ctx, ctx.model)
